@@ -132,7 +132,7 @@ func checkLiteral(s string) (msg string, class string) {
 	}
 }
 
-var c12MoreCtx = []string{"[typeof _]", "[null??_]", "[0||_]", "[true&&_]", "[typeof\t_]", "[!c?0:_]", "[$v=_]", "[(0,_)]", "[typeof(_)]"}
+var c12MoreCtx = []string{"[typeof _]", "[null??_]", "[0||_]", "[true&&_]", "[typeof\t_]", "[!c?0:_]", "[$v=_]", "[(0,_)]", "[typeof(_)]", "[len(left('abcdef', 3)), _]", "[len(mid('abcdef', 1, 4) + lpad('7', '0', 3)), 17, _]", "[year(date(2024, 1, 15)), _]"}
 
 var c12CtxCount int
 
